@@ -321,6 +321,13 @@ QXmppTask<QXmppMamManager::RetrieveResult> QXmppMamManager::retrieveMessages(con
             state.processedMessages.resize(state.messages.size());
             state.runningDecryptionJobs = state.messages.size();
 
+            // no messages: nothing to decrypt, the loop below would never finish the promise
+            if (state.messages.isEmpty()) {
+                state.finish();
+                d->ongoingRequests.erase(itr);
+                return;
+            }
+
             const auto size = state.messages.size();
             for (qsizetype i = 0; i < size; i++) {
                 const auto &message = state.messages.at(i);
